@@ -309,6 +309,21 @@ def check_kernel(out, facts):
             kinds = [(e[0], e[1] if e[0] == 'MUTCALL' else None) for e in evs]
             # min is printed with its arguments in canonical (sorted) order, whichever way round it was written
             chunk = 'min(%s, %s)' % tuple(sorted(['unwrap_or(checked_div(MAX_PREALLOCATION=%s, size_of()), MAX=18446744073709551615)' % maxp, rs]))
+            # the chunk is min(allowance, remaining) where the allowance is MAX_PREALLOCATION / size_of::<T>() by evaluation
+            def _is_chunk(val):
+                val = strip(val)
+                if isinstance(val, tuple) and val and val[0] == 'mutvar' and not (len(val) > 4 and val[4]):
+                    val = strip(val[3])
+                if sym.vstr(val) == chunk:
+                    return True
+                if isinstance(val, tuple) and val and val[0] == 'call' and val[1] == 'min' and len(val[3]) == 2:
+                    xs = [strip(a) for a in val[3]]
+                    for a_, b_ in ((xs[0], xs[1]), (xs[1], xs[0])):
+                        if sym.vstr(b_) == rs and chunk_bound_ok(a_, maxp):
+                            return True
+                return False
+            if kinds == [('HOOK', None), ('MUTCALL', 'reserve_exact'), ('CALLBACK', None), ('SET', None)] and _is_chunk(evs[1][3][1]):
+                chunk = sym.vstr(evs[1][3][1])          # the canonical spelling of this tree's chunk expression
             if kinds != [('HOOK', None), ('MUTCALL', 'reserve_exact'), ('CALLBACK', None), ('SET', None)]:
                 why.append('loop body is not hook, reserve_exact, callback, remaining -= chunk: %s' % kinds)
             else:
